@@ -50,10 +50,10 @@ class StateVectorEvolution(MatrixData, BasisManaged):
             HOmega = ham.get_RWA_skeleton()
             
             for i, t in enumerate(self.TimeAxis.data):
-                # evolution operator
+                # evolution operator (diagonal: one phase factor per state)
                 Ut = numpy.exp(-sgn*1j*HOmega*t)
                 # revert RWA
-                rhot = numpy.dot(Ut,self.data[i,:])
+                rhot = Ut*self.data[i,:]
                 self.data[i,:] = rhot
                 
         if sgn == 1:
